@@ -42,7 +42,8 @@ def neighbour_tasks(n, count, nchunks, seed, per_anchor=60):
     labels = sorted(set(lcorbit.orbit_table(n)))
     rnd = random.Random(seed * 7 + n)
     picks = [labels[rnd.randrange(len(labels))] for _ in range(count)]
-    return [("neigh", n, ch, per_anchor, seed * 1000 + 900 + i) for i, ch in enumerate(chunks(picks, nchunks))]
+    # one anchor per task: anchors in weakly entangled classes make the library's layer search slow (large kernels)
+    return [("neigh", n, [lab], per_anchor, seed * 1000 + 900 + i) for i, lab in enumerate(picks)]
 
 
 FMT_CYCLE = ("str+", "str", "mat", "mat3", "circuit")
@@ -132,6 +133,11 @@ def iter_cases(task):
             rnd.shuffle(locs)
             chosen = chosen + locs[:max(6, per_anchor // 3)]
             rnd.shuffle(chosen)
+            from ..oracle.pauli import group_elements
+            els = group_elements(a["gens"])
+            entangled = sum(1 for q in range(n) if not any((e[0] | e[1]) == (1 << q) for e in els))
+            if n >= 5 and entangled <= 2:
+                chosen = chosen[:12]            # the layer search needs ~1 s per call for (nearly) product states
             anchor = dict(a, conn=c, fmt=fmt, stratum="neighbour-anchor%d" % n, label=label)
             yield dict(anchor)
             yield dict(anchor)                      # requested twice: caches that only keep what was asked for repeatedly
